@@ -363,6 +363,46 @@ def datatype_roundtrip():
     return cases, bad
 
 
+def reread_overwrites():
+    """[B] reading XML into an already populated object gives what reading it into a fresh object gives."""
+    rnd = random.Random(SEED + 5)
+    cases, bad = 0, []
+    for cls in all_classes():
+        if not hasattr(cls, 'as_etree_node') or not hasattr(cls, 'from_node') or not hasattr(cls, 'update_from_node'):
+            continue
+        populated, plain = _construct(cls), _construct(cls)
+        if populated is None or plain is None:
+            continue
+        for name, d in _sorted_props(cls):
+            v = _sample(d, rnd)
+            try:
+                if v is not None:
+                    setattr(populated, name, v)
+                elif isinstance(getattr(populated, name, None), list):
+                    # list members: borrow an element type-correct value where one can be built
+                    vc = getattr(d, 'value_class', None)
+                    item = _construct(vc) if vc is not None else None
+                    if item is not None:
+                        getattr(populated, name).append(item)
+                    elif isinstance(d, (xs.SubElementStringListProperty, xs._StringAttributeListBase)):
+                        getattr(populated, name).append('stale')
+            except Exception:  # noqa: BLE001
+                pass
+        try:
+            node = plain.as_etree_node(etree.QName('urn:verif', 'x'), {'v': 'urn:verif'})
+            fresh_obj = cls.from_node(node)
+            populated.update_from_node(node)
+        except Exception:  # noqa: BLE001
+            continue
+        cases += 1
+        diff = _members_differ(fresh_obj, populated)
+        if diff:
+            bad.append({'key': f'stale-member-after-reread:{cls.__name__}.{diff[0]}', 'detail': f'{cls.__name__}.{diff[0]}: reading XML without it into a populated object keeps {getattr(populated, diff[0])!r}; a fresh object reads {getattr(fresh_obj, diff[0])!r}'})
+        if len(bad) > 6:
+            break
+    return cases, bad
+
+
 def module_constants():
     """[F] import-time constants the contracts assume."""
     bad = []
@@ -378,5 +418,6 @@ if __name__ == '__main__':
     c.run('C05.schema_conformance', 'F', schema_conformance, bound='every class that maps to a complexType of the bundled XSDs (by NODETYPE or class name): property targets declared, element order = sequence order, required members covered')
     c.run('C05.type_conformance', 'F', type_conformance, bound='every scalar property of every class mapped to an xsd type: converter category vs xsd base type, enum members vs xsd enumerations, implied values vs xsd defaults')
     c.run('C05.mdib_roundtrip', 'B', mdib_roundtrip, bound='every descriptor / state / context state of the bundled test MDIB files: write, read, compare, re-write; schema validation of the whole MDIB')
+    c.run('C05.reread_overwrites', 'B', reread_overwrites, bound='every constructible data-type class: a populated instance re-reads the XML of a default instance and must equal a fresh read')
     c.run('C05.datatype_roundtrip', 'B', datatype_roundtrip, bound='every constructible data-type class x seeded present/absent scalar members (strings incl. XML-special / non-ASCII, enums, decimals, timestamps)')
     c.emit()
